@@ -1,8 +1,51 @@
-(* C11 — statements are added as the proofs land (see DESIGN.md section 6). *)
-From Coq Require Import String Ascii List.
-From Bkl Require Import Model.Value Model.Str Proofs.StrProofs.
+(* C11 — $output selects exactly the marked subtrees and hides exactly the excluded ones.
+   Statements only; proofs in Proofs/OutputProofs.v.
+   [strip v]  : v with every "$output: true" marker removed (map key, or list marker entry);
+   [marks v]  : the stripped marked subtrees in output order (a marked map before what is selected inside it, in sorted
+                key order; a marked list after its entries);
+   [hide v]   : v with every subtree under "$output: false" removed, None when v itself is hidden;
+   [ok_true], [ok_false] : no list marker entry carries other keys (the code rejects those: C11_extra_keys). *)
+From Coq Require Import String Ascii List ZArith.
+From Bkl Require Import Model.Value Model.Merge Model.Eval Proofs.OutputProofs.
 Import ListNotations.
+Local Open Scope string_scope.
+Local Open Scope list_scope.
 
-Theorem C11_placeholder_unescape : forall s, unescape (escape s) = s.
-Proof. exact unescape_escape. Qed.
-Print Assumptions C11_placeholder_unescape.
+Theorem C11_selection : forall v, ok_true v -> find_outputs v = Ok (strip v, marks v).
+Proof. exact find_outputs_spec. Qed.
+Print Assumptions C11_selection.
+
+Theorem C11_hiding : forall v, ok_false v -> filter_output v = Ok (hide v).
+Proof. exact filter_output_spec. Qed.
+Print Assumptions C11_hiding.
+
+(* the subtrees marked $output: true — and only those, or the root when there are none — become the output documents,
+   in a fixed order, each without its hidden parts *)
+Theorem C11_select : forall o d, ok_true d -> Forall ok_false (selected d) ->
+  outputs_of o d =
+    bind (map_res (fun v => match hide v with
+                            | None => Ok []
+                            | Some y => bind (validate o y) (fun _ => Ok [finalize y])
+                            end) (selected d)) (fun rs => Ok (concat rs)).
+Proof. exact outputs_of_spec. Qed.
+Print Assumptions C11_select.
+
+(* anything under $output: false is dropped as a whole *)
+Theorem C11_hidden : forall m l, (has_map_bool m "$output" false = true -> hide (VMap m) = None) /\
+                                 (has_list_map_bool l "$output" false = true -> hide (VList l) = None).
+Proof. intros m l. split; [apply hide_false_map|apply hide_false_list]. Qed.
+Print Assumptions C11_hidden.
+
+(* a list entry carrying $output: true next to other keys is an error, never a silent selection *)
+Theorem C11_extra_keys : forall l x, In x l -> marker_kind true x = Some false -> (forall y, In y l -> ok_true y) ->
+  exists e, find_outputs (VList l) = Err e.
+Proof. exact find_outputs_extra_keys. Qed.
+Print Assumptions C11_extra_keys.
+
+(* non-vacuity: nested selection with a hidden list inside *)
+Example C11_example :
+  let inner := VMap [("$output", VBool true); ("name", VStr "inner"); ("secret", VList [VMap [("$output", VBool false)]; VStr "h"])] in
+  let d := VMap [("$output", VBool true); ("svc", inner)] in
+  ok_true d /\ map hide (selected d) =
+    [Some (VMap [("svc", VMap [("name", VStr "inner")])]); Some (VMap [("name", VStr "inner")])].
+Proof. cbn. repeat split; congruence. Qed.
